@@ -436,6 +436,44 @@ func inLoop(in ssa.Instruction) bool {
 }
 
 func c05D5(c *Ctx, w *World, pds *ssa.Function, pen ssa.CallInstruction) {
+	// the proportional split: the per-stake share is taken from what remains after the validator's risk obligation
+	// was set aside, so that shares + obligation = the configured penalty
+	{
+		tp := w.Fn("staking", "", "takePenalty")
+		c.sawFunc(fname(tp))
+		ai := bigIntAliases(tp)
+		var quo ssa.CallInstruction
+		for _, ci := range callInstrs(tp) {
+			if o := calleeObj(ci); o != nil && o.Name() == "QuoRem" && recvName(o) == "Int" {
+				quo = ci
+			}
+		}
+		c.sites++
+		if quo == nil {
+			c.Undecided(fname(tp)+"#split-of-remaining-amount", tp.Pos(), "the QuoRem that computes the per-stake share was not found")
+		} else {
+			dividend := ai.class(stripConv(callArgs(quo)[0]))
+			// the value the obligation was subtracted from: X.Sub(X, obligation) where obligation is later added to the validator's own share
+			ok := false
+			for _, sub := range callInstrs(tp) {
+				o := calleeObj(sub)
+				if o == nil || o.Name() != "Sub" || recvName(o) != "Int" || instrDominates(quo, sub) {
+					continue
+				}
+				obl := ai.class(stripConv(callArgs(sub)[1]))
+				addedBack := false
+				for _, add := range callInstrs(tp) {
+					if oa := calleeObj(add); oa != nil && oa.Name() == "Add" && recvName(oa) == "Int" && instrDominates(quo, add) && ai.class(stripConv(callArgs(add)[1])) == obl {
+						addedBack = true
+					}
+				}
+				if addedBack && ai.class(stripConv(callRecv(sub))) == dividend {
+					ok = true
+				}
+			}
+			c.Check(fname(tp)+"#split-of-remaining-amount", quo.Pos(), ok, ifelse(ok, "the share per stake divides the amount from which the obligation was subtracted; the obligation is added to the validator's own share", "the share per stake is not computed from the amount that remains after the risk obligation was set aside, while the obligation is still added to the validator's own share: for a validator with a risk obligation the shares sum to more than the configured penalty"))
+		}
+	}
 	name := fname(pds)
 	amount := callArgs(pen)[5]
 	gotToken, gotFrac := false, false
